@@ -1,0 +1,32 @@
+// Copyright 2020-2025 Buf Technologies, Inc.
+//
+// Licensed under the Apache License, Version 2.0 (the "License");
+// you may not use this file except in compliance with the License.
+// You may obtain a copy of the License at
+//
+//      http://www.apache.org/licenses/LICENSE-2.0
+//
+// Unless required by applicable law or agreed to in writing, software
+// distributed under the License is distributed on an "AS IS" BASIS,
+// WITHOUT WARRANTIES OR CONDITIONS OF ANY KIND, either express or implied.
+// See the License for the specific language governing permissions and
+// limitations under the License.
+
+//go:build verif
+
+package bufctl
+
+// Contracts for the gocv verifier (see /verif/DESIGN.md). Comment-only.
+//
+// C20: an annotation-set error is printed and becomes ErrFileAnnotation; an error is never cleared.
+//@ func (c *controller) handleFileAnnotationSetRetError(retErrAddr)
+//@   property C20
+//@   modifies heap, ghost.annotPrinted, ghost.fail
+//@   requires !ghost.fail && !ghost.annotPrinted
+//@   ensures never-cleared: old(derefRef(retErrAddr)) != nil ==> derefRef(retErrAddr) != nil
+//@   ensures nil-stays: old(derefRef(retErrAddr)) == nil ==> derefRef(retErrAddr) == nil && ghost.annotPrinted == old(ghost.annotPrinted)
+//@   ensures outcome: derefRef(retErrAddr) == old(derefRef(retErrAddr)) || (ghost.annotPrinted && (derefRef(retErrAddr) == ErrFileAnnotation || (ghost.fail && !old(ghost.fail))))
+//@   ensures printed-gives-100: ghost.annotPrinted && !old(ghost.annotPrinted) && !(ghost.fail && !old(ghost.fail)) ==> derefRef(retErrAddr) == ErrFileAnnotation
+//
+//@ table errFileAnnotation {C20} of ErrFileAnnotation
+//@   ensures status-100: cast(*app.appError, ErrFileAnnotation).exitCode == 100
